@@ -3616,6 +3616,8 @@ static Node *primary(Token **rest, Token *tok) {
       return new_binary(ND_COMMA, lhs, rhs, tok);
     }
 
+    if (ty->size < 0)
+      error_tok(start, "invalid application of 'sizeof' to an incomplete type");
     return new_ulong(ty->size, start);
   }
 
@@ -3624,6 +3626,8 @@ static Node *primary(Token **rest, Token *tok) {
     add_type(node);
     if (node->ty->kind == TY_VLA)
       return new_vla_size_node(node->ty, tok);
+    if (node->ty->size < 0)
+      error_tok(tok, "invalid application of 'sizeof' to an incomplete type");
     return new_ulong(node->ty->size, tok);
   }
 
